@@ -407,3 +407,43 @@ Print Assumptions C08_cfg_clauses.
 Theorem C08_resort_clause u : sorted_ok (sort_rec u) && is_stable_sort_of (sort_rec u) u = true.
 Proof. exact (resort_clause u). Qed.
 Print Assumptions C08_resort_clause.
+
+(* ====================================================================================================
+   The SHIPPED ordering rulebooks (coq/Gen/Src_rules.v, parsed by Model/ShippedText.v).  C08_rank is stated
+   for sibling rules with pairwise disjoint languages; [overlaps] (Spec/P_Shipped.v) lists, for a shipped
+   *.order text, the sibling pairs (every level) that a conservative literal-word test cannot separate: the
+   two forms of each rule (direct, negated) are compared position by position; two forms are separated when
+   at some position both demand a literal word / a word of a one-word regex and no word meets both.
+   The list per hardware is written to the evidence (shipped_rules.order_sibling_overlaps).
+   ==================================================================================================== *)
+From Annet Require Import Model.ShippedText Spec.P_Shipped Gen.Src_rules Proofs.ShippedOverlap.
+
+(* every shipped *.order text is parsed by the model's parser *)
+Theorem C08_shipped_orderings_compile :
+  forallb (fun h => match shipped_ordering h with Some _ => true | None => false end) Src_shipped = true.
+Proof. exact shipped_orderings_compile. Qed.
+Print Assumptions C08_shipped_orderings_compile.
+
+(* the list is complete: a pair of top-level siblings that is not listed is separated by the test or by %scope *)
+Theorem C08_shipped_overlaps_complete :
+  forall prefix ord i j x y, i < j -> nth_error ord i = Some x -> nth_error ord j = Some y ->
+  ~ In (o_raw x, o_raw y) (overlaps prefix ord) ->
+  scopes_meet x y && vecs_overlap (form_vecs prefix x) (form_vecs prefix y) = false.
+Proof. exact overlaps_top_complete. Qed.
+Print Assumptions C08_shipped_overlaps_complete.
+
+(* Stated, not proved: the test is conservative for the pattern model (two forms it separates are matched by no
+   common row).  Missing: "the i-th word of a row matched by a PatternY pattern is the pattern's i-th literal / lies
+   in the language of its i-th one-word regex" from C07Y_match_iff, for the tokens before position 8. *)
+Definition C08_overlap_test_sound_statement : Prop :=
+  forall prefix r1 r2 row,
+    vecs_overlap (form_vecs prefix r1) (form_vecs prefix r2) = false ->
+    hits ym (fun p => reverse_row p prefix) r1 row = true -> hits ym (fun p => reverse_row p prefix) r2 row = true -> False.
+
+(* non-vacuity / sensitivity of the test on a shipped text: arista.order lists `logging trap` before `logging` *)
+Definition pair_mem (p : string * string) (l : list (string * string)) : bool :=
+  existsb (fun q => String.eqb (fst p) (fst q) && String.eqb (snd p) (snd q)) l.
+Example C08_shipped_overlap_example :
+  pair_mem ("logging trap", "logging") (shipped_overlaps hw_Arista) = true /\
+  pair_mem ("service", "switch") (shipped_overlaps hw_Arista) = false.
+Proof. vm_compute. split; reflexivity. Qed.
